@@ -342,6 +342,7 @@ func concretise(r *wRec, ids idMap) (*concrete, error) {
 
 var errInjected = errors.New("verif: injected transport error")
 var errFeedLimit = errors.New("verif: feed limit reached")
+var errReadAfterFin = errors.New("verif: Read called again after the transport had reported its final error")
 
 // scriptReader delivers data in the given chunk sizes (the rest in one piece),
 // optionally with runs of (0,nil) reads, then the final condition.
@@ -385,6 +386,11 @@ func (s *scriptReader) Read(p []byte) (int, error) {
 	}
 	if len(p) == 0 {
 		return 0, nil
+	}
+	if s.afterFin > 0 {
+		// the final condition was already delivered once; a reader that asks again lost it
+		s.afterFin++
+		return 0, errReadAfterFin
 	}
 	if s.pos >= len(s.data) {
 		if s.endless {
